@@ -21,7 +21,7 @@ import (
 	"github.com/thanos-community/promql-engine/logicalplan"
 )
 
-var aggValOps = []string{"sum", "max", "min", "count", "avg", "group", "stddev", "stdvar"}
+var aggValOps = []string{"sum", "max", "min", "count", "avg", "group", "stddev", "stdvar", "quantile"}
 
 func cmdAggValCases(args []string) {
 	fs := flag.NewFlagSet("aggvalcases", flag.ExitOnError)
@@ -57,7 +57,20 @@ func cmdAggValCases(args []string) {
 			mod = " by (" + l + ")"
 		}
 		sel := pick(r, []string{"foo", "bar", `{__name__=~"foo|bar"}`, `{__name__=~".+"}`, `{__name__=~".+",a!="y"}`, g.freshSelector()})
-		c.Query = fmt.Sprintf("%s%s (%s%s)", aggValOps[fn], mod, sel, g.modifiers())
+		param := 0.0
+		if aggValOps[fn] == "quantile" {
+			ps := pick(r, []string{"0", "0.5", "0.9", "1", "0.25", "-1", "2", "NaN", "0.999"})
+			pe, _ := parser.ParseExpr(ps)
+			switch n := pe.(type) {
+			case *parser.NumberLiteral:
+				param = n.Val
+			case *parser.UnaryExpr:
+				param = -n.Expr.(*parser.NumberLiteral).Val
+			}
+			c.Query = fmt.Sprintf("quantile%s (%s, %s%s)", mod, ps, sel, g.modifiers())
+		} else {
+			c.Query = fmt.Sprintf("%s%s (%s%s)", aggValOps[fn], mod, sel, g.modifiers())
+		}
 		expr, err := parser.ParseExpr(c.Query)
 		if err != nil {
 			stats["unparsable"]++
@@ -129,7 +142,7 @@ func cmdAggValCases(args []string) {
 			stats["duplicate-output-labels"]++
 		}
 		stats[aggValOps[fn]]++
-		cases = append(cases, fmt.Sprintf("  mkAVC %d%%N %d%%N %s %s %s %s %s", id, fn, coqBool(agg.Without), u.nameList(agg.Grouping),
+		cases = append(cases, fmt.Sprintf("  mkAVC %d%%N %d%%N %s %s %s %s %s %s", id, fn, coqFloat(param), coqBool(agg.Without), u.nameList(agg.Grouping),
 			coqList(sers), coqList(steps), coqList(exp)))
 	}
 	var sb strings.Builder
